@@ -9,6 +9,10 @@ from .common import const_f64
 
 
 def run(ctx, rep):
+    # the reported time is a function of the request alone: a cache or other hidden state on the computation path makes it depend on what was
+    # computed before (C20's R20.5) - the same place and date, asked with another school, angle or weather, would get the earlier answer
+    from . import shared, c20 as _c20h
+    shared.include(ctx, rep, _c20h.run, {'R20.5'}, why='no thread-local, static or lock-protected state on the computation path')
     rep.explanation = (
         'Decides on the reconstructed Asr term: k is the numeric value of the school enum whose discriminants are Shafi=1, Hanafi=2; only '
         'Asr depends on the school and Asr depends on no angle/weather; Asr = Dhuhr + t, t in [0,12] h; Asr is weakly increasing in k '
